@@ -9,6 +9,26 @@ SGR = re.compile(r'\x1b\[[\d;]*m')
 
 
 def session_for(ctx, k):
+    if k % 10 == 9:
+        # many incarnations of one id: every generation letter (and ids ending in 0) appears in coloured labels
+        import random
+        from props import c02
+        r2 = random.Random(ctx.seed * 77 + k)
+        s = c02.churn_session(r2, r2.choice([30, 45]), server_side=k % 20 == 9, srv=k % 30 == 9)
+        for e in s['events']:
+            if e['in']['e'] == 'msg':
+                m = e['in']['m']
+                # ids 5 -> 50, 4 -> 400: labels such as @50m
+                def ren(i):
+                    return {5: 50, 4: 400}.get(i, i)
+                m['tid'] = ren(m['tid'])
+                for a in m['args']:
+                    if a['k'] in ('obj', 'new'):
+                        a['id'] = ren(a['id'])
+                    if a['k'] == 'int' and m['name'] == 'delete_id':
+                        a['v'] = ren(a['v'])
+        s['events'].append({'in': {'e': 'cmd', 'c': 'other', 'text': 'list ~ 40'}})
+        return s
     g = gen.SessionGen(ctx.seed * 15485867 + k, nconn=(1, 3), nmsg=(12, 35), junk=0.15, cmds=0.35, core=None if k % 2 else True, unresolved=0.08,
                        matcher_depth=k % 3, with_init_filter=0.3, show=True)
     s = g.session()
